@@ -4,6 +4,7 @@ import ChythonModel.Py.Hash
 import ChythonModel.Proofs.C19Binary
 import ChythonModel.Proofs.C19Rename
 import ChythonModel.Proofs.C19Probe
+import ChythonModel.Proofs.C19Regs
 /-!
 # C19 — results identical across processes, hash seeds, repeated calls, copies
 
@@ -172,6 +173,31 @@ example : (interSet exampleA.view exampleB.view).map (·.toList) = some [33] ∧
 /-- a modelled set, and an observed container given by its iteration order, are legitimate operands -/
 theorem set_views_denote (s : IntSet) (h : Inv s) (ks : List Int) :
     s.view.Denotes (Mem s.table) ∧ (View.ofList ks).Denotes (· ∈ ks) := ⟨view_denotes h, ofList_denotes ks⟩
+
+/-! ### programs over several sets — the register machine `ROp.run` executed by the driver for every op that writes a set -/
+
+/-- One step of a program (`new`, a single-set op, `update(set)`, `copy`, `-=`, `&`, `-`, `|` with modelled or observed
+operands, CPython's aliasing cases included): every register keeps the full invariant, the target register denotes exactly
+the documented value computed from the denotations before the step, and no other register changes. -/
+theorem set_program_step_refines (rs rs' : Regs) (h : AllInv rs) (op : ROp) (o : Obs) (hr : op.run rs = some (rs', o)) :
+    AllInv rs' ∧ (∀ x, den rs' op.target x ↔ op.absValue (den rs) o x) ∧
+    ∀ r, r ≠ op.target → rs'.get r = rs.get r := run_sound h hr
+
+/-- after any program from no registers: every set is well formed, iterates without duplicates, and `len` is exact -/
+theorem set_program_invariant (ops : List ROp) (rs : Regs) (os : List Obs) (hr : runProg [] ops = some (rs, os)) :
+    ∀ r s, rs.get r = some s → Inv s ∧ s.toList.Nodup ∧ s.used = s.toList.length := by
+  intro r s hg
+  have hi := runProg_inv ops allInv_nil hr r s hg
+  refine ⟨hi, nodup_activeKeys hi.1, ?_⟩
+  rw [hi.2.1]
+  exact (activeKeys_length s.table).symm
+
+/-- a program with aliasing, a pop, both intersection directions and an observed operand; the values are CPython's -/
+example : (runProg [] [.new 0, .step 0 (.updateIter [1, 9, 17, 25, 33, 2]), .copy 1 0, .step 1 .pop, .step 1 (.discard 17),
+      .inter 2 0 1, .diff 3 0 1, .union 4 3 1, .diffUpdateSet 0 2, .updateSet 1 3, .interLT 5 4 [33, 7, 1]]).map
+      (fun r => (List.range 6).map fun i => (r.1.get i).map (·.toList)) =
+    some [some [1, 17], some [17, 33, 2, 1, 9, 25], some [33, 2, 9, 25], some [1, 17], some [1, 17, 33, 2, 9, 25],
+      some [33, 1]] := by decide +kernel
 
 /-- (c) Determinism: pop results and iteration order are a function of the history of keys and nothing else — the
 model has no other input (no seed, no address, no clock), and `hashBits` is `pyHashInt`, which has no seed.  Stated
